@@ -787,7 +787,7 @@ pub fn run(ctx: &mut Ctx, mode: EMode) -> RunResult {
         }
         EMode::C18 => {
             transcript::check(ctx, &w.srv.c)?;
-            let up = w.srv.c.clock.node_time(ctx.now_ns) / 1_000_000;
+            let up = w.srv.c.clock.uptime_ms(ctx.now_ns);
             if up >= 1 << 24 {
                 ctx.probe("d.uptime_past_2^24ms");
             }
